@@ -644,10 +644,12 @@ void opt_args(opt_t * opt, int argc, char *argv[])
             break;
 #endif
         case 't':              /* set connect timeout */
-            opt->connect_timeout = atoi(optarg);
+            if (string_to_int (optarg, &opt->connect_timeout) < 0)
+                errx ("%p: Invalid connect timeout `%s' passed to -t.\n", optarg);
             break;
         case 'u':              /* set command timeout */
-            opt->command_timeout = atoi(optarg);
+            if (string_to_int (optarg, &opt->command_timeout) < 0)
+                errx ("%p: Invalid command timeout `%s' passed to -u.\n", optarg);
             break;
         case 'b':              /* "batch" */
             opt->sigint_terminates = true;
